@@ -40,6 +40,9 @@ func (bc *BaseContract) TxSwapBegin(
 	if err != nil {
 		return "", err
 	}
+	if _, err = swap.Load(bc.GetStub(), bc.GetStub().GetTxID()); err == nil {
+		return "", errors.New("swap already exists")
+	}
 	s := proto.Swap{
 		Id:      id,
 		Creator: sender.Address().Bytes(),
